@@ -198,6 +198,19 @@ void gen_fill(mzd_t *M, const char *gen, long p, uint64_t seed) {
     /* restore mask (rows were xored with masked data only, but be explicit) */
     return;
   }
+  if (!strcmp(gen, "leadz")) { /* p = lead*1000 + density(0..256): `lead` zero columns, then random columns of that density */
+    int lead = (int)(p / 1000), dens = (int)(p % 1000);
+    if (lead >= n) lead = n - 1;
+    for (rci_t i = 0; i < m; i++)
+      for (wi_t j = 0; j < M->width; j++) {
+        word v = rand_word_density(&r, dens);
+        rci_t c0 = (rci_t)j * 64;
+        if (c0 + 64 <= lead) v = 0;
+        else if (c0 < lead) v &= ~(((word)1 << (lead - c0)) - 1);
+        mat_set_word(M, i, j, v);
+      }
+    return;
+  }
   if (!strcmp(gen, "widegap")) { /* p = lead*1000 + rank: `lead` zero columns first, then a rank-limited block whose early stripes lack pivots */
     int lead = (int)(p / 1000), rk = (int)(p % 1000);
     if (rk < 1) rk = 1;
@@ -342,6 +355,15 @@ static int op_mul(ctx_t *c, const long *a) { return do_mul(c, a, MUL_STR); }
 static int op_addmul(ctx_t *c, const long *a) { return do_mul(c, a, ADDMUL_STR); }
 static int op_mul_mp(ctx_t *c, const long *a) { return do_mul(c, a, MUL_MP); }
 static int op_addmul_mp(ctx_t *c, const long *a) { return do_mul(c, a, ADDMUL_MP); }
+static int op_mul_naive_t(ctx_t *c, const long *a) { /* C A BT clear : the documented product with a pre-transposed right factor, C = A * BT^T (C supplied) */
+  mzd_t *A = MAT(a[1]), *BT = MAT(a[2]);
+  REQ(ISREG(a[0]) && A && BT && c->m[a[0]]);
+  mzd_t *C = c->m[a[0]];
+  REQ(A->ncols == BT->ncols && C->nrows == A->nrows && C->ncols == BT->nrows && A->nrows > 0 && A->ncols > 0 && BT->nrows > 0);
+  REQ(!overlaps_reg(c, a[0], a[1]) && !overlaps_reg(c, a[0], a[2]));
+  L->_mzd_mul_naive(C, A, BT, a[3] != 0);
+  return OP_OK;
+}
 static int op_sqr(ctx_t *c, const long *a) { /* C A cutoff : mzd_mul(C, A, A) -> squaring route */
   mzd_t *A = MAT(a[1]);
   REQ(ISREG(a[0]) && A && A->nrows == A->ncols && A->nrows > 0);
@@ -715,6 +737,7 @@ const opdesc_t op_table[] = {
   { "mul_naive", op_mul_naive, 3, "C A B" },
   { "addmul_naive", op_addmul_naive, 3, "C A B" },
   { "mul_va", op_mul_va, 3, "C A B" },
+  { "mul_naive_t", op_mul_naive_t, 4, "C A BT clear" },
   { "mul_m4rm", op_mul_m4rm, 4, "C A B k" },
   { "addmul_m4rm", op_addmul_m4rm, 4, "C A B k" },
   { "mul", op_mul, 4, "C A B cutoff" },
